@@ -80,6 +80,13 @@ def pushInput (cv : Conv) (cb : ColBuf) : InputColumn → Except Fault ColBuf
 
 /-! ### what a batch supplies for one column (specification side) and what `push_typed_cols` issues -/
 
+/-- `push_val` as an op. -/
+def valOp : RawVal → Op
+  | .int i => .ints [i]
+  | .float f => .floats [f]
+  | .str s => .strs [s]
+  | .null => .nulls 1
+
 /-- The ops whose `specColumn` is "the cells this representation supplies for a batch of `rows` rows":
     the dense prefix / the sparse entries / the mixed values, NULL elsewhere; `none` = column missing.
     (supplying zero values does not give the column a type.) -/
@@ -88,8 +95,7 @@ def repOps (rows : Nat) : Option Rep → List Op
   | some (.dense d) => (if d.isEmpty then [] else [.floats (d.take rows)]) ++ [.nulls (rows - d.length)]
   | some (.i64 d) => (if d.isEmpty then [] else [.ints (d.take rows)]) ++ [.nulls (rows - d.length)]
   | some (.str d) => [.strs d]
-  | some (.mixed d) => d.map fun
-      | .int i => .ints [i] | .float f => .floats [f] | .str s => .strs [s] | .null => .nulls 1
+  | some (.mixed d) => d.map valOp
   | some (.sparse d) => sparseOps (fun f => Op.floats [f]) rows 0 d
   | some (.sparseI64 d) => sparseOps (fun i => Op.ints [i]) rows 0 d
 where
